@@ -32,7 +32,7 @@ ASSUMPTIONS = ['sources within 0.5 deg of CRVAL so that the pixel-space model an
 MIN_REACH = {'source_finder:SourceFinder.priorized_fit_islands': 1, 'source_finder:SourceFinder._refit_islands': 1}
 MIN_COUNTERS = {'runs_with_sources_narrower_than_the_psf': 2, 'runs_ratio1_with_catalogue_psf_differing_from_beam': 2, 'runs_with_repeated_labels_inside_an_island': 1,
                 'outputs_judged': 100, 'cutout_width_odd': 10, 'cutout_width_even': 10, 'interference_pairs': 3,
-                'runs_over_20_groups': 2, 'file_inputs': 3, 'runs_polar_field_regroup_on': 4, 'runs_with_a_blend_between_4_median_a_and_4_mean_a': 3, 'runs_from_a_table_with_nan_psf_columns': 3, 'sources_with_a_blank_pixel_next_to_the_centre': 10, 'polar_blend_members': 20}
+                'runs_over_20_groups': 2, 'file_inputs': 3, 'runs_polar_field_regroup_on': 4, 'sources_with_pa_outside_minus90_90': 10, 'runs_with_a_blend_between_4_median_a_and_4_mean_a': 3, 'runs_from_a_table_with_nan_psf_columns': 3, 'sources_with_a_blank_pixel_next_to_the_centre': 10, 'polar_blend_members': 20}
 BATCHES_PER_JOB = 4
 PRIORIZED = 64
 FWHM2CC = 1.0 / (2.0 * np.sqrt(2.0 * np.log(2.0)))
@@ -216,6 +216,18 @@ def cases(seed, tier):
         c['regroup'] = False
         c['form'] = 'objects'
         c['stage'] = 1 + i % 3
+        out.append(c)
+    # position angles quoted in the 0..180 / 0..360 / -180..180 conventions (catalogues that do not come from Aegean): the same
+    # ellipses as pa - 180 k
+    n_pa = 6 if tier == 'quick' else 60
+    for i in range(n_pa):
+        c = gen_case(rng, int(rng.integers(3, 14)), tier)
+        for q in c['sources']:
+            q['pa'] = q['pa'] + float(rng.choice([0.0, 180.0, 180.0, -180.0, 360.0]))
+        c['form'] = 'objects' if i % 2 else 'csv'
+        c['psf_columns'] = True
+        c['stage'] = 1 + i % 3
+        c['pa_conventions'] = True
         out.append(c)
     # flagged pixels next to source centres
     n_pin = 8 if tier == 'quick' else 80
@@ -573,6 +585,8 @@ def run(case):
             sep = float(np.hypot(*(np.array(case['sources'][-1]['index']) - np.array(case['sources'][-2]['index'])))) * case['scale'] * 3600
             if 4 * np.median(aa) < sep < 4 * np.mean(aa):
                 o.count('runs_with_a_blend_between_4_median_a_and_4_mean_a')
+        if case.get('pa_conventions'):
+            o.count('sources_with_pa_outside_minus90_90', sum(1 for q in case['sources'] if not -90 < q['pa'] <= 90))
         if case.get('polar'):
             o.count('runs_polar_field_regroup_on')
             isl = [q['island'] for q in case['sources']]
